@@ -3,7 +3,7 @@
 EXTENDS Store
 
 Lay(n) == CASE n = 0 -> [dpad |-> 0,    ipad |-> 0,    codec |-> "mh"]
-            [] n = 1 -> [dpad |-> 1,    ipad |-> 7,    codec |-> "sorted"]
+            [] n = 1 -> [dpad |-> 33,   ipad |-> 7,    codec |-> "sorted"]
             [] n = 2 -> [dpad |-> 1413, ipad |-> 4096, codec |-> "mh"]
             [] n = 3 -> [dpad |-> 8,    ipad |-> 1,    codec |-> "sorted"]
             [] n = 4 -> [dpad |-> 0,    ipad |-> 0,    codec |-> "none"]       \* WithoutIndex: Finalize cannot succeed
